@@ -1,2 +1,2 @@
-for _p in ["C01","C02","C03","C04","C05","C06","C10","C13","C14","C15","C16","C17","C18","C19","C20"]:
+for _p in ["C04","C06","C10","C14","C15","C16","C18","C19","C20"]:
     NOT_APPLICABLE[_p] = "check under construction in this build round (static rule designed in DESIGN.md section 5, not yet registered)"
